@@ -254,6 +254,22 @@ Theorem C16_generated_melodies_in_half_guard :
 Proof. exact generated_melodies_audible. Qed.
 Print Assumptions C16_generated_melodies_in_half_guard.
 
+(* ---- every sound is bounded: with non-negative durations, the time a call spends in delay() is at most
+   what its arguments say (play_tone: duration_ms; beep: n*on + (n-1)*off, exactly; sweep: duration_ms;
+   melody: beats * 60000/tempo); an untimed play_tone and stop() never delay *)
+Theorem C16_every_call_bounded : forall pin neg st o,
+  nonneg_durations o = true ->
+  (inject_Z (delay_sum (snd (dstep pin neg emitter_melodies st o))) <= duration_bound emitter_melodies o)%Q.
+Proof. exact every_call_bounded. Qed.
+Print Assumptions C16_every_call_bounded.
+
+Theorem C16_beep_duration_general : forall pin neg tbl st f on off times,
+  qle q0 on = true -> qle q0 off = true ->
+  let n := Z.max 0 (c_int times) in
+  delay_sum (snd (dstep pin neg tbl st (Beep f on off times))) = n * Qfloor on + Z.max 0 (n - 1) * Qfloor off.
+Proof. exact beep_duration_general. Qed.
+Print Assumptions C16_beep_duration_general.
+
 (* ---- non-vacuity *)
 Definition q (n : Z) : Q := Qmake n 1.
 
@@ -322,3 +338,13 @@ Example C16_nonvacuous_half_guard :
   tones (snd (dstep 8 neg_literal emitter_melodies (init (q 440)) (Sweep (q 1) (q 0) (q 50) (q 5)))) = [1; 1; 1; 0].
 Proof. vm_compute. repeat split. Qed.
 Print Assumptions C16_nonvacuous_half_guard.
+
+Example C16_nonvacuous_bounded_calls :
+  nonneg_durations (Melody n_siren (Some (q 90))) = true /\
+  (duration_bound emitter_melodies (Melody n_siren (Some (q 90))) == q 3000)%Q /\
+  delay_sum (snd (dstep 8 neg_literal emitter_melodies (init (q 440)) (Melody n_siren (Some (q 90))))) = 3000 /\
+  nonneg_durations (Sweep (q 440) (q 880) (q 50) (q 3)) = true /\
+  delay_sum (snd (dstep 8 neg_literal emitter_melodies (init (q 440)) (Sweep (q 440) (q 880) (q 50) (q 3)))) = 48 /\
+  nonneg_durations (PlayTone (q 440) (Some (q (-1)))) = false.
+Proof. vm_compute. repeat split. Qed.
+Print Assumptions C16_nonvacuous_bounded_calls.
